@@ -113,16 +113,20 @@ func (gc *primaryGC) run(interval, timeLimit time.Duration) {
 func (gc *primaryGC) gc(ctx context.Context, lowUsePercent int64, timeLimit time.Duration) (int64, error) {
 	gc.reclaimed = 0
 	affectedSet, err := processFreeList(ctx, gc.freeList, gc.primary.basePath, gc.primary.maxFileSize)
+
+	// Remove all files in the affected set from the visited set. Do this even
+	// if processing the freelist was interrupted, because the records that
+	// were already marked as deleted are skipped when the freelist is
+	// processed again, and their files would not be seen as affected then.
+	for fileNum := range affectedSet {
+		delete(gc.visited, fileNum)
+	}
+
 	if err != nil {
 		if err == context.DeadlineExceeded {
 			return gc.reclaimed, err
 		}
 		return 0, fmt.Errorf("cannot process freelist: %w", err)
-	}
-
-	// Remove all files in the affected set from the visited set.
-	for fileNum := range affectedSet {
-		delete(gc.visited, fileNum)
 	}
 
 	header, err := readHeader(gc.primary.headerPath)
@@ -393,7 +397,7 @@ func processFreeList(ctx context.Context, freeList *freelist.FreeList, basePath 
 
 		for {
 			if ctx.Err() != nil {
-				return nil, ctx.Err()
+				return affectedSet, ctx.Err()
 			}
 			free, err := flIter.Next()
 			if err != nil {
